@@ -65,6 +65,17 @@ META["C08"] = {
     "design_ref": "DESIGN.md §7 C08",
 }
 
+META["C11"] = {
+    "text": "Bounded symbolic model checking of the real ApplyGradedOPRBlock / ApplyGradedSPRBlock (+ InsertCoinbase, InsertStaking100Coinbase, AddToBalance) for an ARBITRARY grader verdict: each winner's payout address receives exactly Payout() once, an unparsable address pays nothing, nobody else changes, supply grows by the sum, one coinbase history record per paid winner with the amount.",
+    "note": "unit level; the Grade/GradeS glue (grader version by height, top-holder filter on the declared staker id, D1/D17) and ApplyFactoidBlock (FCT burns) need the dependency/Factom-client stubs of the glue harness and are not yet claimed",
+    "design_ref": "DESIGN.md §7 C11",
+}
+META["C15"] = {
+    "text": "Bounded symbolic model checking of the real DevelopersPayouts (+ InsertDeveloperRewardCoinbase), MintTokensForBalance and NullifyMintedTokens with symbolic prior balances: per-address developer amounts from the specified percentage table, total exactly 2000 PEG (x144 from 2.0.2), minted amounts per asset from the specified table x 1e8, remaining minted supply driven to exactly 0 for listed assets and untouched otherwise, bystanders untouched, history records written.",
+    "note": "unit level at the relevant concrete heights; the when (height == activation, height % 144) is SyncBlock/DBlockSync glue and NullifyBurnAddress needs a Factom-client stub: not yet claimed",
+    "design_ref": "DESIGN.md §7 C15",
+}
+
 NOT_APPLICABLE = {}
 for i in range(1, 21):
     p = "C%02d" % i
